@@ -12,19 +12,6 @@ namespace Rx
 
 open HM
 
-/-- run an `HM` computation from a state -/
-def runS {α} (m : HM Val α) (s : HSt Val) : Except Err α × HSt Val := (ExceptT.run m).run s
-
-theorem runS_bind {α β} (m : HM Val α) (f : α → HM Val β) (s : HSt Val) :
-    runS (m >>= f) s = match runS m s with
-      | (.ok a, s') => runS (f a) s'
-      | (.error e, s') => (.error e, s') := by
-  simp only [runS, ExceptT.run, bind, ExceptT.bind, ExceptT.mk, StateT.bind, StateT.run, ExceptT.bindCont]
-  cases h : m s with
-  | mk a s' => cases a <;> simp [pure, StateT.pure]
-
-theorem runS_pure {α} (a : α) (s : HSt Val) : runS (pure a : HM Val α) s = (.ok a, s) := rfl
-
 /-- the flush loop of group_by at completion / error of the parent: one inner event per mapped key, in insertion order -/
 theorem gb_loop (mkEv : Key → Ev Val) (k : Key) (m : List (Val × Nat)) :
     ∀ (l : List (Val × Nat)), (∀ p ∈ l, (m.find? (fun q => PyAlg.eq q.1 p.1)).map (·.2) = some p.2) →
